@@ -171,7 +171,13 @@ def run(chk, prog):
                 raise AnalysisBroken("compute_ionization_states_metals: more than 512 paths")
         return leaves
 
-    leaves = execute(fn["body"]["s"], env, [], [])
+    # void helpers (free functions or members) that the balance hands its stage ratios to are read in place
+    p1_helpers = {d["full"].split("(")[0]: d for d in prog.library().decls if d["kind"] == "function" and
+                  d.get("body") is not None and (d.get("ret") or "void") == "void" and not d.get("dependent") and
+                  any(C.is_call(x, name="set_ionic_fraction") for x in C.walk_stmt(d["body"])) and d is not fn and
+                  d["full"].split("(")[0] != fn["full"].split("(")[0]}
+    p1_body = C.inline_void_helpers(fn["body"], p1_helpers)
+    leaves = execute(p1_body["s"], env, [], [])
     tracked = {}
     for _, sets, _ in leaves:
         for name, expr, node in sets:
@@ -618,30 +624,65 @@ def special_arms(chk, unit, metal_ions):
 
 
 def literal_arms(chk, fn, metal_ions):
+    """Blocks whose set_ionic_fraction calls all store literals - directly, or through a const local that is a literal or a
+    choice `c ? literal : literal` (every choice is a case of its own)."""
+    import itertools
+    defs = {}
+    for st in C.walk_stmt(fn["body"]):
+        if st.get("k") == "Decl":
+            for d in st["d"]:
+                if d.get("init") is not None and "const" in (d.get("t") or ""):
+                    defs[d["id"]] = C.strip_casts(d["init"])
+
+    def lit(e):
+        e = C.strip_casts(e)
+        while e.get("k") == "Paren":
+            e = C.strip_casts(e["x"])
+        if e.get("k") in ("Float", "Int"):
+            return float(e["v"])
+        return None
+
+    def choices(e):
+        """(key, [values]) of a literal-valued argument; key None for a plain literal"""
+        e = C.strip_casts(e)
+        if lit(e) is not None:
+            return None, [lit(e)]
+        if e.get("k") == "Ref" and e.get("id") in defs:
+            d = defs[e["id"]]
+            if lit(d) is not None:
+                return None, [lit(d)]
+            if d.get("k") == "Cond" and lit(d["a"]) is not None and lit(d["b"]) is not None:
+                return e["id"], [lit(d["a"]), lit(d["b"])]
+        return None, None
     n = 0
     for s in C.walk_stmt(fn["body"]):
         if s.get("k") != "Block":
             continue
         direct = [C.strip_casts(st) for st in s["s"] if C.is_call(C.strip_casts(st), name="set_ionic_fraction")]
-        if not direct or not all(C.strip_casts(st["a"][1]).get("k") in ("Float", "Int") for st in direct):
+        if not direct:
             continue
-        vals = {}
-        for st in direct:
-            vals[C.strip_casts(st["a"][0]).get("n")] = float(C.strip_casts(st["a"][1])["v"])
-        if not (set(vals) & metal_ions):
+        ch = [(C.strip_casts(st["a"][0]).get("n"),) + choices(st["a"][1]) for st in direct]
+        if not all(c[2] is not None for c in ch):
             continue
-        n += 1
-        chk.require(metal_ions <= set(vals), "P2", "special-case arm at line %s sets every tracked metal ion" % s.get("l"),
-                    where(s, fn), "ions not set in this arm: %s (they keep the value of the previous iteration)" %
-                    sorted(metal_ions - set(vals)), function=fn["full"], construct="exhaustive special case")
-        per = {}
-        for nm, v in vals.items():
-            m = re.match(r"ION_([A-Za-z]+)_", nm or "")
-            if m:
-                per.setdefault(m.group(1), []).append(v)
-        bad = {el: vs for el, vs in per.items() if sum(vs) > 1.0 or min(vs) < 0.0 or max(vs) > 1.0}
-        n += 1
-        chk.require(not bad, "P2", "special-case arm at line %s: literal fractions are in [0,1] and sum to at most 1 per "
-                    "element" % s.get("l"), where(s, fn), "elements with unphysical literals: %s" % bad,
-                    function=fn["full"], construct="literal sums")
+        if not ({c[0] for c in ch} & metal_ions):
+            continue
+        keys = sorted({c[1] for c in ch if c[1] is not None})
+        for pick in itertools.product((0, 1), repeat=len(keys)):
+            sel = dict(zip(keys, pick))
+            vals = {nm: (vs[sel[key]] if key is not None else vs[0]) for nm, key, vs in ch}
+            case = "" if not keys else " (case %s)" % ", ".join("%s = %s" % (nm, vals[nm]) for nm, key, vs in ch if key is not None)[:80]
+            n += 1
+            chk.require(metal_ions <= set(vals), "P2", "special-case arm at line %s sets every tracked metal ion%s" % (s.get("l"), case),
+                        where(s, fn), "ions not set in this arm: %s (they keep the value of the previous iteration)" %
+                        sorted(metal_ions - set(vals)), function=fn["full"], construct="exhaustive special case")
+            per = {}
+            for nm, v in vals.items():
+                m = re.match(r"ION_([A-Za-z]+)_", nm or "")
+                if m:
+                    per.setdefault(m.group(1), []).append(v)
+            bad = {el: vs for el, vs in per.items() if sum(vs) > 1.0 or min(vs) < 0.0 or max(vs) > 1.0}
+            n += 1
+            chk.require(not bad, "P2", "special-case arm at line %s: literal fractions are in [0,1] and sum to at most 1 per "
+                        "element%s" % (s.get("l"), case), where(s, fn), "elements with unphysical literals: %s" % bad,
+                        function=fn["full"], construct="literal sums")
     return n
